@@ -99,7 +99,26 @@ Theorem C15_fetch_updates_tracking_ref inside loc new rs : inside loc = true -> 
 Proof. exact (fetch_updates_ref inside loc new rs). Qed.
 Print Assumptions C15_fetch_updates_tracking_ref.
 
+(* packed-refs belongs to stock git: whatever fetches, reference writes and removals git-bug performs — any number of
+   them, on a store of any size, in a process that lives as long as one likes — every entry of packed-refs afterwards
+   was already there; only git pack-refs / git gc of the host's user ever add one (and they leave symbolic references
+   such as refs/remotes/origin/HEAD loose) *)
+Theorem C15_gitbug_never_packs steps rs : forallb (fun s => negb (is_pack s)) steps = true ->
+  incl (rs_packed (rs_run steps rs)) (rs_packed rs).
+Proof. exact (gitbug_never_packs steps rs). Qed.
+Print Assumptions C15_gitbug_never_packs.
+
 (* ---- non-vacuity ---- *)
+
+(* the lines git accepts in packed-refs; the line go-git's PackRefs writes for a symbolic reference is not one of them *)
+Example C15_packed_refs_lines :
+  packed_line_okb (lit "# pack-refs with: peeled fully-peeled sorted ") = true /\
+  packed_line_okb (lit "5f2d3a0c9b8e7d6c5b4a39281706f5e4d3c2b1a0 refs/remotes/origin/main") = true /\
+  packed_line_okb (lit "^5f2d3a0c9b8e7d6c5b4a39281706f5e4d3c2b1a0") = true /\
+  packed_line_okb (lit "ref: refs/remotes/origin/main refs/remotes/origin/HEAD") = false /\
+  packed_line_okb (lit "5f2d3a0c9b8e7d6c5b4a39281706f5e4d3c2b1a0 refs/heads/with blank") = false /\
+  packed_line_okb (lit "5f2d3a0c9b8e7d6c5b4a39281706f5e4d3c2b1a0") = false.
+Proof. exact packed_line_examples. Qed.
 
 (* the packed references have to be made loose before every fetch, not once per opened repository: pull, git gc, pull
    without the unpacking leaves refs/remotes/origin/bugs/b1 broken; with it (FetchRefs) the reference gets its new value *)
